@@ -29,6 +29,18 @@ CLAIMED["C04"] = ("DESIGN.md §4 C04",
     "trusted: pysym, struct model, model stubs for string/rich-text tables; decimal128 arithmetic is an uninterpreted "
     "function here (C01 decides it); flag words beyond the popcount bound are outside the claim")
 
+CLAIMED["C18"] = ("DESIGN.md §4 C18",
+    "Every string of up to 3 (quick) / 4 (thorough) arbitrary Unicode scalar values is tokenized symbolically by the real "
+    "Tokenizer: z3 shows the only escaping exception is TokenizerError and the token texts concatenate to the input; quoted "
+    "strings over a 8-symbol alphabet up to length 5/7 are never split.",
+    "trusted: pysym, regex alphabet-partition model, float(str) outcome model; outside: longer strings, fixture formulas")
+CLAIMED["C11"] = ("DESIGN.md §4 C11",
+    "Row/column arguments are unbounded symbolic ints: z3 shows Table.cell, write, set_cell_style (through "
+    "_validate_cell_coords) and iter_rows/iter_cols of the real code address exactly the stated cell/rectangle, agree with "
+    "the A1 form, raise IndexError outside, and grow the table to exactly the needed size (small-scope shapes).",
+    "trusted: pysym; Table built directly over real cells with a stub model; outside: growth > 3, shapes beyond 3x2, "
+    "set_cell_formatting/set_cell_border beyond the shared coordinate check")
+
 NOT_APPLICABLE = {}
 
 
